@@ -10,6 +10,9 @@ All statements are about the tables regenerated from the Go source on this run
 `Gen.Loads`: which fields the loaders turn into hashes and read; `Gen.Fbs`: the schemas) and the
 reviewed classification of `Model/Walk.lean`.  Field-level facts are decided over the whole finite
 tables and lifted to all objects by `Walk.lift_cover`.
+
+Since the repair of the working-set walker (/repo bf9bc24) the field-level statements hold in FULL;
+the only remaining partial statement is about tuple encodings (`ExtendedAddrEnc`).
 -/
 namespace DoltVerif.C09
 open DoltVerif DoltVerif.Walk
@@ -17,33 +20,36 @@ open DoltVerif DoltVerif.Walk
 abbrev walked : List Fld := walkedFields Gen.Walk.direct Gen.Walk.msgDirect
 abbrev loads : List Fld := loadFields Gen.Loads.extracts Gen.Loads.workingSetReads
 
-/-- FULL statement (DESIGN.md §6): every field a loader dereferences is reported by the walker. -/
-def walk_covers_loads_full : Prop := ∀ f ∈ loads, f ∈ walked
-
-/-- proved part: … or it is one of the explicitly listed known omissions. -/
-theorem walk_covers_loads_partial : ∀ f ∈ loads, f ∈ walked ∨ f ∈ knownMissing := by
+/-- **walk_covers_loads** (full): every field a loader dereferences — every field from which loader
+code builds a hash, and every field of a stored working set that `doltdb.newWorkingSet` reads
+through `datas.WorkingSetHead / MergeState / RebaseState` — is reported by the walker. -/
+theorem walk_covers_loads : ∀ f ∈ loads, f ∈ walked := by
   decide +kernel
 
-/-- the full statement holds exactly when no loaded field is missing from the walker -/
-theorem walk_covers_loads_full_iff : walk_covers_loads_full ↔ missing walked loads = [] := by
-  unfold walk_covers_loads_full missing
-  rw [List.filter_eq_nil_iff]
-  constructor
-  · intro h f hf; simpa using h f hf
-  · intro h f hf; simpa using h f hf
+/-- nothing a loader reads is missing from the walker -/
+theorem nothing_missing : missing walked loads = [] := by
+  decide +kernel
 
-/-- any field in `missing` refutes the full statement -/
-theorem missing_refutes_full (f : Fld) (h : f ∈ missing walked loads) : ¬ walk_covers_loads_full := by
-  intro hfull
-  have := walk_covers_loads_full_iff.mp hfull
-  rw [this] at h
-  exact absurd h (List.not_mem_nil)
+/-- the working-set chain specifically (the place of the former defect): all seven addresses
+`doltdb.newWorkingSet` dereferences are walked -/
+theorem working_set_loads_walked :
+    ∀ r ∈ Gen.Loads.workingSetReads, fst2 r ∈ walked := by
+  decide +kernel
 
-/-- FULL statement for the schema: every address field is walked. -/
-def walk_covers_address_fields_full : Prop := ∀ f ∈ addressFields, f ∈ walked
+/-- the chain extraction did see the rebase and merge state (guards against a vacuous table) -/
+theorem working_set_chain_complete :
+    ("RebaseState", "onto_commit_addr") ∈ Gen.Loads.workingSetReads.map fst2 ∧
+    ("RebaseState", "pre_working_root_addr") ∈ Gen.Loads.workingSetReads.map fst2 ∧
+    ("MergeState", "pre_merge_head_commit_addr") ∈ Gen.Loads.workingSetReads.map fst2 ∧
+    ("MergeState", "from_commit_addr") ∈ Gen.Loads.workingSetReads.map fst2 ∧
+    ("MergeState", "pre_working_root_addr") ∈ Gen.Loads.workingSetReads.map fst2 ∧
+    ("WorkingSet", "working_root_addr") ∈ Gen.Loads.workingSetReads.map fst2 ∧
+    ("WorkingSet", "staged_root_addr") ∈ Gen.Loads.workingSetReads.map fst2 := by
+  decide +kernel
 
-/-- every address-typed field of the schema is walked, or is a listed known omission -/
-theorem walk_covers_address_fields : ∀ f ∈ addressFields, f ∈ walked ∨ f ∈ knownMissing := by
+/-- **walk_covers_address_fields** (full): every address-typed field of the schema (incl. the hash
+strings `merge_state.pending_commit_hashes`) is walked. -/
+theorem walk_covers_address_fields : ∀ f ∈ addressFields, f ∈ walked := by
   decide +kernel
 
 /-- every embedded-message field is walked by recursion -/
@@ -55,18 +61,15 @@ theorem walk_covers_tuple_fields :
     ∀ f ∈ tupleFields, (∃ m ∈ Gen.Walk.msgDirect, m.1 = f.1 ∧ m.2.1 = f.2 ∧ m.2.2 ≠ "") ∨ f ∈ tupleExempt := by
   decide +kernel
 
-/-- every sub-table that (transitively through one level) holds address or embedded fields is
-descended into by the walker, or is the listed known omission (`WorkingSet.rebase_state`) -/
+/-- every sub-table that holds address or embedded fields is descended into by the walker -/
 theorem walk_covers_subtables :
-    ∀ s ∈ subtableFields Gen.Fbs.tables, s.2.2 ∈ tablesWithAddrs →
-      s ∈ Gen.Walk.subtables ∨ (s.1, s.2.1) ∈ knownMissingSubtables := by
+    ∀ s ∈ subtableFields Gen.Fbs.tables, s.2.2 ∈ tablesWithAddrs → s ∈ Gen.Walk.subtables := by
   decide +kernel
 
-/-- every sub-table the loaders descend into and that holds addresses is one the walker descends
-into (or the known omission) -/
+/-- every sub-table the loaders descend into and that holds addresses is one the walker descends into -/
 theorem walk_covers_loader_descents :
     ∀ d ∈ Gen.Loads.descends, (∃ s ∈ subtableFields Gen.Fbs.tables, s.1 = d.1 ∧ s.2.1 = d.2.1 ∧ s.2.2 ∈ tablesWithAddrs) →
-      (∃ s ∈ Gen.Walk.subtables, s.1 = d.1 ∧ s.2.1 = d.2.1) ∨ (d.1, d.2.1) ∈ knownMissingSubtables := by
+      (∃ s ∈ Gen.Walk.subtables, s.1 = d.1 ∧ s.2.1 = d.2.1) := by
   decide +kernel
 
 /-- every kind of stored message has a case in `SerialMessage.WalkAddrs`; kinds delegated to
@@ -78,43 +81,48 @@ theorem kinds_covered :
     (∀ k ∈ Gen.Walk.noRefs, k ∉ (addressFields ++ embeddedFields ++ tupleFields).map (·.1)) := by
   decide +kernel
 
-/-- every tuple encoding that holds an address is enumerated by the iterators the node serializer
-uses to fill `value_address_offsets`, or is the listed known omission (`ExtendedAddrEnc`) -/
-theorem leaf_encodings_covered :
+/-- FULL statement about tuple encodings: every encoding that holds an address is enumerated by the
+iterators the node serializer uses to fill `value_address_offsets`.  FALSE on the current tree
+(`Witness.leaf_encodings_full_refuted`). -/
+def leaf_encodings_covered_full : Prop :=
+  ∀ e ∈ Gen.Walk.isAddrEncs ++ Gen.Walk.isAdaptiveEncs,
+    e ∈ Gen.Walk.iterAddressEncs ++ Gen.Walk.iterAdaptiveEncs
+
+/-- proved part: … or it is the listed known omission (`ExtendedAddrEnc`, Doltgres extended types) -/
+theorem leaf_encodings_covered_partial :
     ∀ e ∈ Gen.Walk.isAddrEncs ++ Gen.Walk.isAdaptiveEncs,
       e ∈ Gen.Walk.iterAddressEncs ++ Gen.Walk.iterAdaptiveEncs ∨ e ∈ knownMissingEncs := by
   decide +kernel
 
-/-- OBJECT LEVEL: for every object `o` (any assignment of address lists to fields, every optional
-field populated or not) every non-empty address that loading `o` reads is reported by the walker,
-or sits in one of the known-omitted fields. -/
-theorem obj_level (o : Obj) (a : Addr) (h : a ∈ loadReads loads o) :
-    a ∈ walk walked o ∨ ∃ f ∈ knownMissing, a ∈ o.get f :=
-  lift_cover walk_covers_loads_partial o a h
-
-/-- OBJECT LEVEL, schema form: every non-empty address stored in an address-typed field is
-reported by the walker or sits in a known-omitted field. -/
-theorem obj_level_address_fields (o : Obj) (a : Addr) (h : a ∈ fieldsAddrs addressFields o) :
-    a ∈ walk walked o ∨ ∃ f ∈ knownMissing, a ∈ o.get f :=
-  lift_cover (loads := addressFields) walk_covers_address_fields o a h
-
-/-- objects that populate none of the known-omitted fields are fully covered -/
-theorem obj_level_clean (o : Obj) (hclean : ∀ f ∈ knownMissing, o.get f = []) (a : Addr)
-    (h : a ∈ loadReads loads o) : a ∈ walk walked o := by
-  cases obj_level o a h with
+/-- **obj_level** (full): for every object `o` (any assignment of address lists to fields, every
+optional field populated or not) every non-empty address that loading `o` reads is reported by the
+walker. -/
+theorem obj_level (o : Obj) (a : Addr) (h : a ∈ loadReads loads o) : a ∈ walk walked o := by
+  have hc : ∀ f ∈ loads, f ∈ walked ∨ f ∈ ([] : List Fld) := fun f hf => Or.inl (walk_covers_loads f hf)
+  cases lift_cover hc o a h with
   | inl hw => exact hw
-  | inr he =>
-    obtain ⟨f, hf, hm⟩ := he
-    rw [hclean f hf] at hm
-    exact absurd hm (List.not_mem_nil)
+  | inr he => obtain ⟨f, hf, _⟩ := he; exact absurd hf List.not_mem_nil
 
-/-! non-vacuity: a working set with a merge state whose four loaded addresses are all reported -/
+/-- **obj_level**, schema form: every non-empty address stored in an address-typed field is
+reported by the walker. -/
+theorem obj_level_address_fields (o : Obj) (a : Addr) (h : a ∈ fieldsAddrs addressFields o) :
+    a ∈ walk walked o := by
+  have hc : ∀ f ∈ addressFields, f ∈ walked ∨ f ∈ ([] : List Fld) :=
+    fun f hf => Or.inl (walk_covers_address_fields f hf)
+  cases lift_cover (loads := addressFields) hc o a h with
+  | inl hw => exact hw
+  | inr he => obtain ⟨f, hf, _⟩ := he; exact absurd hf List.not_mem_nil
+
+/-! non-vacuity: a working set in the middle of a revert *and* a rebase (every optional field
+populated by a distinct address): everything loading it reads is reported. -/
 def exampleWs : Obj := ⟨[(("WorkingSet", "working_root_addr"), [1]), (("WorkingSet", "staged_root_addr"), [2]),
-  (("MergeState", "pre_working_root_addr"), [3]), (("MergeState", "from_commit_addr"), [4])]⟩
+  (("MergeState", "pre_working_root_addr"), [3]), (("MergeState", "from_commit_addr"), [4]),
+  (("MergeState", "pre_merge_head_commit_addr"), [5]), (("MergeState", "pending_commit_hashes"), [8, 9]),
+  (("RebaseState", "pre_working_root_addr"), [6]), (("RebaseState", "onto_commit_addr"), [7])]⟩
 
-example : loadReads loads exampleWs ≠ [] ∧ (∀ a ∈ loadReads loads exampleWs, a ∈ walk walked exampleWs) := by
+example : (loadReads loads exampleWs).eraseDups.length = 7 ∧
+    (∀ a ∈ loadReads loads exampleWs, a ∈ walk walked exampleWs) ∧
+    (∀ a ∈ [1, 2, 3, 4, 5, 6, 7, 8, 9], a ∈ walk walked exampleWs) := by
   decide +kernel
-
-example : (∀ f ∈ knownMissing, exampleWs.get f = []) := by decide +kernel
 
 end DoltVerif.C09
